@@ -23,7 +23,7 @@ from __future__ import annotations
 import ast
 
 from ..astutil import calls, dotted, is_none, kwarg, method_call, norm, walk
-from ..cfg import build_cfg
+from ..cfg import Builder, build_cfg, inline_local
 from ..flow import Defs, _Sel, origins
 from ..loader import FunctionInfo
 from ..paths import normal_only
@@ -92,6 +92,36 @@ def _store_call(c: ast.Call, name: str) -> bool:
     return isinstance(f, ast.Attribute) and f.attr == name and "tofu" in norm(f.value)
 
 
+def tofu_guard_edges(g, active: bool):
+    """Edges taken when the TOFU guard says verification is (in)active.  The guard
+    is a truthiness test of self.tofu_db or `self.tofu_db is (not) None`."""
+    out = set()
+    n_tests = 0
+    for n in g.nodes:
+        if n.kind != "test" or n.ast is None:
+            continue
+        lab_active = None
+        if dotted(n.ast) == "self.tofu_db":
+            lab_active = "T"
+        elif isinstance(n.ast, ast.Compare) and len(n.ast.ops) == 1 and dotted(n.ast.left) == "self.tofu_db" and is_none(n.ast.comparators[0]):
+            lab_active = "T" if isinstance(n.ast.ops[0], ast.IsNot) else ("F" if isinstance(n.ast.ops[0], ast.Is) else None)
+        if lab_active is None:
+            continue
+        n_tests += 1
+        for b, lab in g.succ[n.id]:
+            if (lab == lab_active) == active:
+                out.add((n.id, b, lab))
+    return out, n_tests
+
+
+def tofu_object(chk: Check):
+    """Abstract value of a configured TOFU database: an object whose
+    truthiness is unknown if its class defines __bool__ / __len__."""
+    ci = chk.proj.cls(TOFU)
+    special = [m for m in ("__bool__", "__len__") if chk.proj.find_method(ci, m) is not None]
+    return ObjV("db", None if special else True), special
+
+
 def _wait_nodes(g):
     return [n for n in g.nodes if n.ast is not None and n.kind == "stmt" and n.has_await and "response_future" in norm(n.ast) and "create_connection" not in norm(n.ast)]
 
@@ -114,8 +144,8 @@ def rule_t1(chk: Check, funcs) -> None:
             chk.finding("T1", fi.key, "no-wait-node", "cannot locate where the response is awaited", fi.loc())
             chk.ob("T1", fi.key, False)
             continue
-        tests = [n for n in g.nodes if n.kind == "test" and dotted(n.ast) == "self.tofu_db"]
-        blocked_e = {(t.id, b, lab) for t in tests for b, lab in g.succ[t.id] if lab == "F"}
+        blocked_e, n_tests = tofu_guard_edges(g, active=False)
+        tests = n_tests
         for v in ver:
             for b, lab in g.succ[v.id]:
                 if lab is None:
@@ -140,14 +170,14 @@ def rule_t1(chk: Check, funcs) -> None:
 def run_samples(chk: Check, fi: FunctionInfo, cert_present=True):
     """Abstractly evaluate a connecting function for each verify() outcome.
     Yields (sample, list of path summaries)."""
-    g = build_cfg(chk.proj, fi)
+    g = Builder(chk.proj, inline_local, 2).build(fi)
     waits = {n.id for n in _wait_nodes(g)}
     tuples = verify_tuples(chk)
     results = []
     samples = [t for t in tuples]
     for valid, msg in samples:
         interp = Interp(chk.proj, fi)
-        interp.oracle = {"self.tofu_db": ObjV("db"), "self.timeout": TOP}
+        interp.oracle = {"self.tofu_db": ObjV("db"), "self.timeout": TOP}  # a non-empty, configured store
 
         def oracle(c, _v=valid, _m=msg):
             mc = method_call(c)
@@ -208,15 +238,20 @@ def rule_t2_t3(chk: Check, funcs) -> None:
                 names = [nm for nm, _c, _n in s["called"]]
                 if valid is False:
                     r = s["raised"]
-                    good = r is not None and isinstance(r.ast.exc, ast.Call) and (dotted(r.ast.exc.func) or "").split(".")[-1] == "CertificateChangedError" and not s["wait"]
+                    exc_calls = []
+                    if r is not None and r.ast.exc is not None:
+                        dd = Defs(g)
+                        exc_calls = [(dn, le) for dn, le in origins(dd, r, r.ast.exc)]
+                    good = r is not None and bool(exc_calls) and all(isinstance(le, ast.Call) and (dotted(le.func) or "").split(".")[-1] == "CertificateChangedError" for _, le in exc_calls) and not s["wait"]
                     if not good:
                         ok = False
                         chk.finding("T2", fi.key, f"changed-accepted:{msg}", f"when verify() reports ({valid}, {msg!r}) a path does not end in raise CertificateChangedError: a host with a different certificate than its pin is accepted", (r or s["path"][-1][0]).where(), g.fmt_path(s["path"]))
-                    elif len(r.ast.exc.args) >= 4:
-                        a = r.ast.exc.args
+                    elif all(len(le.args) >= 4 for _, le in exc_calls):
+                        rn_, le_ = exc_calls[0]
+                        a = le_.args
                         d = Defs(g)
-                        o2 = origins(d, r, a[2])
-                        o3 = origins(d, r, a[3])
+                        o2 = origins(d, rn_, a[2])
+                        o3 = origins(d, rn_, a[3])
                         old_ok = any(not isinstance(le, _Sel) and "fingerprint" in norm(le) and ("old_info" in norm(le) or "get_host_info" in norm(le)) for _, le in o2)
                         new_ok = all(isinstance(le, ast.Call) and (dotted(le.func) or "").endswith("get_certificate_fingerprint") for _, le in o3)
                         if not (old_ok and new_ok):
@@ -347,10 +382,7 @@ def rule_t4(chk: Check) -> None:
             sides = [t.ast.left, t.ast.comparators[0]]
             kinds = []
             for sd in sides:
-                if not isinstance(sd, ast.Name):
-                    kinds.append("other:" + norm(sd))
-                    continue
-                for _dn, le in origins(dv, t, sd):
+                for _dn, le in (origins(dv, t, sd) if isinstance(sd, ast.Name) else [(t, sd)]):
                     if isinstance(le, ast.Call) and (dotted(le.func) or "").endswith("get_certificate_fingerprint") and le.args and dotted(le.args[0]) == "cert":
                         kinds.append("computed")
                     elif isinstance(le, ast.Subscript) and isinstance(le.slice, ast.Constant) and le.slice.value == "fingerprint":
